@@ -53,9 +53,13 @@ def judge_fd(run, mon, key, what, analytic, fd_of_h, scale, unit, config=None, s
                 return False
         else:
             a_b = a
-        if not np.all(np.isfinite(fd)) or not np.all(np.isfinite(a_b)):
+        if not np.all(np.isfinite(fd)):
             run.skip(mon, "non-finite values (state outside the admissible range)")
             return None
+        if not np.all(np.isfinite(a_b)):
+            # the quantity it is compared with is finite on the whole stencil: a NaN / inf entry is no derivative of it
+            run.fail(mon, key + " non-finite", "%s: non-finite entries where the differentiated quantity is finite" % what, unit=unit)
+            return False
         errs.append(maxabs(fd - a_b) / max(scale, 1e-300))
     e1, e2 = errs
     if e2 > tol and e2 < 0.35 * e1:
